@@ -215,7 +215,8 @@ def gen_obj_case(rng, classes, field=None, max_src=3):
                      ([rvec(rng, -2, 2) for _ in range(m)] if m > 1 else rvec(rng, -2, 2)),
                      "pixel": pixel, "handedness": "left" if rng.random() < 0.15 else "right"})
     return {"kind": "object-forms", "field": field or rng.choice(FIELDS), "sources": srcs, "sensors": sens,
-            "pixel_agg": None}
+            "pixel_agg": None, "in_out_form": rng.choice(["inside", "inside", "outside"]),
+            "agg_form": rng.choice(["mean", "max", "min"])}
 
 
 def build_sources(case):
@@ -306,24 +307,29 @@ def check_object_forms(case):
     # keyword arguments are forwarded by every method form (pixel_agg; in_out where the form has it)
     agg = case.get("agg_form") or "mean"
     ref_agg = call(lambda s, q: gx(s, q, squeeze=False, pixel_agg=agg))
-    tot_agg = np.sum(ref_agg, axis=0, keepdims=True)
     forms += [
         ("src.getX(*sensors, pixel_agg)", lambda s, q: meth(s[0], f)(*q, squeeze=False, pixel_agg=agg),
          call(lambda s, q: gx(s[0], q, squeeze=False, pixel_agg=agg)), True, sc),
         ("sens.getX(*sources, pixel_agg)", lambda s, q: meth(q[0], f)(*s, squeeze=False, pixel_agg=agg),
          call(lambda s, q: gx(s, q[0], squeeze=False, pixel_agg=agg)), True, sc),
+        # (pixel_agg acts on the SUM over the collection's sources: compare with the top-level call on a collection)
         ("Collection(sources).getX(*sensors, pixel_agg)",
-         lambda s, q: pathfix(meth(C(*s), f)(*q, squeeze=False, pixel_agg=agg)), tot_agg, False, sc * L),
+         lambda s, q: meth(C(*s), f)(*q, squeeze=False, pixel_agg=agg),
+         call(lambda s, q: gx(C(*s), q, squeeze=False, pixel_agg=agg)), True, sc * L),
         ("Collection(sensors).getX(*sources, pixel_agg)",
          lambda s, q: pathfix(meth(C(*q), f)(*s, squeeze=False, pixel_agg=agg)), ref_agg, False, sc),
         ("Collection(sources+sensors).getX(pixel_agg)",
-         lambda s, q: meth(C(*s, *q), f)(squeeze=False, pixel_agg=agg), tot_agg, False, sc * L),
+         lambda s, q: meth(C(*s, *q), f)(squeeze=False, pixel_agg=agg),
+         call(lambda s, q: gx(C(*s), C(*q), squeeze=False, pixel_agg=agg)), False, sc * L),
         ("getX(in_out='auto') explicit", lambda s, q: gx(s, q, squeeze=False, in_out="auto"), ref, True, sc),
-        ("src.getX(in_out='auto') explicit", lambda s, q: meth(s[0], f)(*q, squeeze=False, in_out="auto"),
-         each[0], True, sc),
-        ("sens.getX(in_out='auto') explicit", lambda s, q: meth(q[0], f)(*s, squeeze=False, in_out="auto"),
-         call(lambda s, q: gx(s, q[0], squeeze=False)), True, sc),
     ]
+    # in_out is honoured by Tetrahedron / TriangularMesh only (a warning, suppressed here, says so for the others)
+    io = case.get("in_out_form") or "inside"
+    for l in range(L):
+        forms.append((f"src.getX(in_out='{io}')", lambda s, q, l=l: meth(s[l], f)(*q, squeeze=False, in_out=io),
+                      call(lambda s, q, l=l: gx(s[l], q, squeeze=False, in_out=io)), True, sc))
+    forms.append((f"sens.getX(in_out='{io}')", lambda s, q: meth(q[0], f)(*s, squeeze=False, in_out=io),
+                  call(lambda s, q: gx(s, q[0], squeeze=False, in_out=io)), True, sc))
     for name, fn, exp, exact, scl in forms:
         if fn is None:
             got, exp = exp
@@ -544,6 +550,19 @@ def impl_rank_table(cls):
     return dict(get_registered_sources()[name]._field_func_kwargs_ndim)
 
 
+def translated_base_table():
+    """the literal base rank table of getBH_dict_level2 as the translator read it on this run (Gen/GenTables.v)"""
+    import os
+    import re
+    try:
+        txt = open(os.path.join(os.path.dirname(os.path.dirname(os.path.abspath(__file__))), "coq", "Gen",
+                                "GenTables.v")).read()
+        m = re.search(r"Definition dict_base_ndim .*?:= \[(.*?)\]\.", txt, flags=re.S)
+        return {k: int(v) for k, v in re.findall(r'\("(\w+)", \(?(-?\d+)\)?\)', m.group(1))}
+    except Exception:   # pylint: disable=broad-except
+        return {}
+
+
 def func_trigger(cls, modes):
     """clause/trigger of a failing functional call: a parameter whose rank entry in the implementation's table is not
     (documented single-instance rank + 1) is the trigger; otherwise the class and the mode pattern"""
@@ -553,6 +572,11 @@ def func_trigger(cls, modes):
     except Exception:   # pylint: disable=broad-except
         tab = {}
     spec = SPEC_RANK.get(name, {})
+    base = translated_base_table()
+    wrong_base = sorted(k for k, r in BASE_RANK.items() if k not in tab and base.get(k) is not None
+                        and base.get(k) != r + 1)
+    if wrong_base:
+        return "rank-table", f"getBH_dict_level2.{wrong_base[0]}"
     wrong = sorted(k for k, r in spec.items() if tab.get(k, 1) != r + 1)
     used = [k for k in wrong if k in modes] or wrong
     if used:
